@@ -114,7 +114,7 @@ def random_programs(n, seed, S=5, length=14):
             else:
                 if used.get(i):
                     continue
-                op = rng.choice(["Field", "Field", "Field", "Field", "GoCtx", "CtxReset", "Logger", "Logger", "Logger"])
+                op = rng.choice(["Field", "Field", "Field", "Field", "GoCtx", "CtxReset", "Stack", "Logger", "Logger", "Logger"])
                 a = 0
                 if op == "Field":
                     nf += 1
